@@ -37,6 +37,7 @@ func runC03(p *Prog, r *Report) {
 	patternsUnmodifiedRule(p, r, "C03.R9")
 	candidatesUnfilteredRule(p, r, "C03.R11")
 	registerUpdateRule(p, r, "C03.R12")
+	assignabilityRule(p, r, "C03.R14")
 	cloneBeforeExtendRule(p, r, "C03.R13", p.Chains())
 	matchesCompleteRule(p, r, "C03.R10", "the input would be rejected (or converted by a different rule) although the documented rules define it")
 	// R6
